@@ -45,7 +45,10 @@ def parseOp? : List String → Option BS.Op
   | ["copy", r, q] => do some (.copy (← reg? r) (← reg? q))
   | ["clone", r, q] => do some (.clone (← reg? r) (← reg? q))
   | ["trim", r] => do some (.trim (← reg? r))
-  | ["ensure", r, n] => do some (.ensure (← reg? r) (← n.toNat?))
+  -- Go `int` argument, possibly zero or negative: `C08.ensureCapacity_int` (ensureCapacityInt b n = ensureCapacity b n.toNat)
+  | ["ensure", r, n] => do some (.ensure (← reg? r) (← n.toInt?).toNat)
+  -- `Load(nil)`
+  | ["loadnil", r] => do some (.load (← reg? r) [])
   | ["rst", r] => do some (.reset (← reg? r))
   | ["loaddata", r, q] => do some (.loadData (← reg? r) (← reg? q))
   | _ => none
@@ -68,7 +71,11 @@ def step (s : BS.Pair) (line : String) : BS.Pair × String :=
     let r := match ws with
       | _ :: r :: _ => (reg? r).getD .A
       | _ => .A
-    (s', toString (BS.count (s'.get r)))
+    -- a copy of a bit set onto itself prints the State scan as well (so that a loss of members shows on this line)
+    let selfCopy := match ws with
+      | ["copy", r, q] => r == q
+      | _ => false
+    (s', toString (BS.count (s'.get r)) ++ (if selfCopy then " " ++ memStr (s'.get r) else ""))
   | none =>
     match ws with
     | ["reset"] => ({}, "reset")
@@ -95,6 +102,7 @@ def step (s : BS.Pair) (line : String) : BS.Pair × String :=
     | ["prevclr", r, i] => qryAt s r i (fun b i => toString (BS.previousClear b i))
     | ["equal"] => (s, toString (BS.equal s.a s.b) ++ " " ++ toString (BS.equal s.b s.a))
     | ["equalnil", r] => qry s r (fun _ => "false")
+    | ["equalself", r] => qry s r (fun b => toString (BS.equal b b))
     | ["mem", r] => qry s r memStr
     | ["obs", r] =>
       match reg? r with
